@@ -450,6 +450,29 @@ def scenarios(prop):
     return out
 
 
+def flavour_dependence(seed):
+    """C03 for the argument of scoped_iter: one history, every kind of iterable (class-based async iterator, async
+    generator, an async iterable that is not its own iterator, a plain synchronous iterator).  A history that
+    fails with some kinds and passes with others depends on the flavour of the argument."""
+    import json  # noqa: PLC0415
+    kinds = ["cls", "agen", "iterable", "sync"]
+    res = run_tlc("Handles", cfg_text(2, 2, 4, True, False, False), outfiles=["edges.ndjson"], timeout=3000)
+    paths = build_paths(read_ndjson(res["files"]["edges.ndjson"]), lambda f: f["n"] == 0)
+    jobs = [("C08", 2, uk, p) for p in paths for uk in kinds]
+    bad = {}
+    with mp.Pool(min(16, os.cpu_count() or 4)) as pool:
+        for out in pool.imap_unordered(replay_path, jobs, chunksize=max(1, len(jobs) // 256)):
+            for sig, d in out:
+                bad.setdefault(json.dumps(d["path"]), {})[d["cfg"]["underlying"]] = (sig, d)
+    found = []
+    for _, per in bad.items():
+        if len(per) < len(kinds):
+            sig, d = sorted(per.items())[0][1]
+            found.append(("C03/scoped_iter/" + sig.split("/", 2)[2] + "-with-some-iterable-flavours-only",
+                          {**d, "fails_with": sorted(per), "passes_with": [k for k in kinds if k not in per]}))
+    return found, len(jobs), {"states": res["distinct"], "transitions": res["generated"]}
+
+
 def check(prop, tier, seed, into=None):
     v = into or Verdict(prop, tier, seed)
     tot = {"states": 0, "transitions": 0, "paths": 0, "replays": 0}
